@@ -327,16 +327,13 @@ def verify(log, fin, status, A, M, b, x0, lam, kind, limit, nreset, napply0, tag
             ref, closed = S.krylov_minimisers(A, M, b, x0, kmax)
             Estar = S.energy(A, b, np.linalg.solve(A, b))
             gap0 = max(Es[0] - Estar, 0.)
-            worst = 0.
             for k in range(1, kmax + 1):
                 Ek = S.energy(A, b, xs[k])
                 dk = abs(Ek - S.energy(A, b, ref[k]))
-                worst = max(worst, dk / (gap0 + slack_E))
                 if dk > KRYLOV_TOL * gap0 + slack_E:
                     return V("iterate %d is not the Krylov-subspace minimiser: E=%.15g, optimum %.15g (E0-E*=%.3e, kappa_eff=%.1e)"
                              % (k, Ek, S.energy(A, b, ref[k]), gap0, keff), "cg|iterate-not-krylov-optimal")
             stats["krylov_checked"] = kmax
-            stats["krylov_worst"] = worst
     return None, label, stats
 
 
